@@ -37,6 +37,16 @@ def run(report, db, tier):
                       'exactly EOFError, in the status probe, by falling '
                       'back to the default version')
     shared.eof_fallback_ps(report, R0e, db, shared.summariser(db, cg))
+    # "closes the connection ... and is dispatched": the dispatcher calls
+    # disconnect(immediate=True) before it offers the exception to anyone; if
+    # that call raises, nothing is dispatched at all
+    from ..common import borrow
+    from . import c16
+    borrow(report, 'R14.5t', "the dispatcher's own disconnect() does not "
+           "raise on a dead peer: teardown guards take every OSError "
+           "(C16's teardown rule)",
+           lambda rid, c: c.startswith('teardown:'),
+           lambda sub: c16.r5(sub, db, cg, M, S))
 
 
 def sy(n):
@@ -395,7 +405,10 @@ def chain(report, db, S, M):
                 if bp.outcome[0] in ('break', 'return', 'raise'):
                     prob2.append('a raising handler ends the loop')
             else:
-                if not (bp.outcome[0] == 'break' and len(bp.outcome) == 1):
+                # `break`, or `return` from the helper the loop lives in
+                if not ((bp.outcome[0] == 'break' and len(bp.outcome) == 1)
+                        or (bp.outcome[0] == 'return'
+                            and lp.fi is not he)):
                     prob2.append('normal completion of a handler does not '
                                  'leave the loop: later handlers would run '
                                  'as well')
@@ -432,7 +445,9 @@ def chain(report, db, S, M):
             continue
         after = top[li[0] + 1:]
         exhausted = any(n[0] == 'exhausted' for n in p.notes)
-        broke = any(n[0] == 'left-by-break' for n in p.notes)
+        broke = any(n[0] == 'left-by-break' or (
+            n[0] == 'left-by-return' and top[li[0]].fi is not he)
+            for n in p.notes)
         state = fh_state(p, fh)
         finals = [e for e in after if e.kind == 'call'
                   and struct(e.fn) == fh]
